@@ -87,7 +87,9 @@ fn parse_array(buf: &[u8]) -> Result<(ArrayIndex, usize), ParseError> {
     }
 
     let array_size = len as usize;
-    let mut array = Vec::with_capacity(array_size);
+    // The length comes from the peer. Don't allocate more than the data received could hold.
+    let remaining = buf.len().saturating_sub(consumed);
+    let mut array = Vec::with_capacity(std::cmp::min(array_size, remaining));
 
     for _ in 0..array_size {
         let next_buf = buf.get(consumed..).ok_or(ParseError::InvalidProtocol)?;
